@@ -1,7 +1,7 @@
-from . import props_v2, props_bld
+from . import props_v2, props_bld, props_v1
 
 PROPS = {}
-for mod in (props_v2, props_bld):
+for mod in (props_v2, props_bld, props_v1):
     for name in dir(mod):
         obj = getattr(mod, name)
         if isinstance(obj, type) and getattr(obj, "id", "C00") == name and name != "Prop":
